@@ -68,7 +68,24 @@ def rule_strip(ctx):
             path=["%s:%d" % (f.file, l) for l in f.path_lines(w2[0])][-8:] if w2 else None)
     r.check(f.dominates_block(gate[0], f.nblock[adds[0]["i"]]) and f.succ[gate[0]][0] in body | {h}, "tokenize/gate-leads-to-loop", db.loc(f, adds[0]),
             "the CT_IGNORED gate no longer leads into the strip loop")
-    r.floor(5)
+    # the strip loop keeps one blank after a backslash (meant for `// ... \ ` comments).  The only other producer of raw
+    # multi-character text, the reader of an unknown directive's body (CT_PREPROC_BODY), must therefore never append
+    # a blank that follows a backslash - otherwise a code line ends in "\ ".
+    pn2 = db.fn("parse_next", file=TOK)
+    typed = [n for n in pn2.all_nodes() if n["k"] == "call" and (n.get("c") or "").endswith("Chunk::SetType") and n.get("a")
+             and expr_str(pn2, n["a"][0]) == "CT_PREPROC_BODY"]
+    r.require(len(typed) == 1, "parse_next: %d SetType(CT_PREPROC_BODY) sites" % len(typed))
+    apps = [n for n in pn2.all_nodes() if n["k"] == "call" and (n.get("c") or "").endswith("::append") and expr_str(pn2, n.get("o")) == "pc.Str()"
+            and pn2.dominates(typed[0]["i"], n["i"]) and any(pn2.nblock[n["i"]] in body2 and pn2.nblock[typed[0]["i"]] not in body2 for h2, body2, _ in pn2.loops())
+            and ("cpd.in_preproc > CT_PP_BODYCHUNK", True) in _conds(pn2, n)]
+    r.require(apps, "the append site of the CT_PREPROC_BODY reader was not found")
+    for n in apps:
+        cs = _conds(pn2, n)
+        okb = any(pol is False and "&&" in c and "last == '\\\\'" in c and "ch == ' '" in c and "||" not in c for c, pol in cs)
+        r.check(okb, "parse_next/preproc-body/no-blank-after-backslash", db.loc(pn2, n),
+                "the reader of a directive body appends a character without excluding a blank that follows a backslash; together with the "
+                "strip loop's keep-one-blank-after-backslash exemption a code line can end in a blank")
+    r.floor(6)
 
 
 def rule_tabs_off(ctx):
@@ -107,12 +124,16 @@ def rule_tabs_off(ctx):
                     if info[0] in ("asg", "decl"):
                         dn = info[1]
                         dcs = [(expr_str(f, cn), pol) for cn, pol in f.guard_conds(f.nblock[dn["i"]]) if cn is not None]
-                        if ("cpd.did_newline", True) in dcs:
-                            lead += 1
-                            rhs = rd.rhs_of(info)
-                            v = fd.truth(rhs, dn["i"]) if rhs is not None else None
-                            r.check(v is False, "output_text/line-start/allow_tabs-definition", db.loc(f, dn),
-                                    "with indent_with_tabs=0 the line-start definition `%s` does not fold to false (folds to %s)" % (expr_str(f, dn["i"])[:90], v))
+                        if ("cpd.did_newline", False) in dcs:
+                            continue        # a definition made for a token that is not the first of its line
+                        # made in the line-start branch, or after the join (then it applies to line starts as well)
+                        lead += 1
+                        rhs = rd.rhs_of(info)
+                        v = fd.truth(rhs, dn["i"]) if rhs is not None else None
+                        where = "line-start" if ("cpd.did_newline", True) in dcs else "both-branches"
+                        r.check(v is False, "output_text/%s/allow_tabs-definition" % where, db.loc(f, dn),
+                                "with indent_with_tabs=0 the definition `%s`, which reaches the column advance of a line's first token, "
+                                "does not fold to false (folds to %s)" % (expr_str(f, dn["i"])[:90], v))
     r.require(lead >= 2, "only %d line-start tab decisions found in output_text" % lead)
     # add_char: tab after blank
     a = db.fn("add_char", file=OUT)
